@@ -285,7 +285,7 @@ theorem fetchBlock_uploaded (hlaw : c.Lawful k n) (hc : Consistent size k e) (m 
       = if i < m then e.blockSize else e.tailBlockSize := by
     intro i hi
     obtain ⟨h1, h2, _⟩ := pcs_facts hc m ct hct i hi
-    have hl := hlaw.length_encode _ h1
+    have hl := hlaw.length_encode _ _ h1 h2
     have hb := hlaw.block_length _ _ h1 h2
     apply hb
     rw [List.getD_eq_getElem?_getD, List.getElem?_eq_getElem (by omega)]
@@ -321,7 +321,7 @@ theorem decodeSegment_uploaded (hlaw : c.Lawful k n) (hc : Consistent size k e) 
     apply List.map_congr_left
     intro i hi
     rw [fetchBlock_uploaded hlaw hc m hm ct hct s hs i (hlt i hi)]
-  have hl := hlaw.length_encode _ h1
+  have hl := hlaw.length_encode _ _ h1 h2
   have hb := hlaw.block_length _ _ h1 h2
   have hdec := hlaw.mds _ _ ids h1 h2 hidl hnd hlt
   unfold decodeSegment
